@@ -95,13 +95,17 @@ func burst(sf base.ServerFactory, blob []byte, n int) (okCount int, written int,
 	h0 = o4h.Hour()
 	var wg sync.WaitGroup
 	var mu sync.Mutex
-	start := make(chan struct{})
+	// every conn gets all but the last byte first; the last bytes are released at the same
+	// instant once all n endpoints sit in Read waiting for them
+	gate := make(chan struct{})
+	conns := make([]*srvh.Conn, n)
 	for i := 0; i < n; i++ {
+		c := srvh.NewConn([]srvh.Step{{K: "c", B: blob[:len(blob)-1]}, {K: "g"}, {K: "c", B: blob[len(blob)-1:]}})
+		c.Gate = gate
+		conns[i] = c
 		wg.Add(1)
 		go func() {
 			defer wg.Done()
-			c := srvh.NewConn([]srvh.Step{{K: "c", B: blob}})
-			<-start
 			_, err := sf.WrapConn(c)
 			w := c.ScriptConn.TakeWritten()
 			mu.Lock()
@@ -114,7 +118,10 @@ func burst(sf base.ServerFactory, blob []byte, n int) (okCount int, written int,
 			}
 		}()
 	}
-	close(start)
+	for _, c := range conns {
+		<-c.AtGate
+	}
+	close(gate)
 	wg.Wait()
 	h1 = o4h.Hour()
 	return
